@@ -64,3 +64,23 @@ Proof. exact AgentMeets.model_meets_C06. Qed.
 Print Assumptions C06_model_meets_monitor.
 Theorem C06_every_step_judged : forall mc cc ops c s vs, In vs (run_mon mc cc c s ops) -> exists b cl, In (6%N, b, cl) vs.
 Proof. intros mc cc ops c s vs H. apply (AgentMeets.run_mon_judged mc cc ops c s vs 6 H). cbn. tauto. Qed.
+
+(* ---- the Rust text of RtoCalculator::next_rto and RtoManager::next_rto (timeout.rs), translated by tools/rs2v.py on every
+   run (Generated/Code.v, the `while let` loop as a Fixpoint over explicit fuel, the debug-build arithmetic checks as
+   explicit panics), IS the schedule model the theorems above are about: for every manager state and instant it returns
+   the model's interval and the model's next state, never panics and never runs out of fuel — as long as the doubled
+   interval fits a Duration (calc_safe; preserved by every call; true of every fresh request with RTO * 2^Rc below
+   5.8e11 years).  This obligation is how defect D9 (u32 multiplier, Rc >= 32) was found. *)
+From Rustun Require Import Base.GRes Generated.Code Proofs.CodeAgreeRto.
+Theorem C06_code_is_model : forall m now, calc_safe (mcalc m) ->
+  gen_RtoManager_next_rto (S (N.to_nat (c_rc (mcalc m)))) (conv_mgr m) now
+  = GOk (fst (next_rto m now), conv_mgr (snd (next_rto m now))).
+Proof. exact CodeAgreeRto.gen_next_rto_agrees. Qed.
+Theorem C06_code_safe_preserved : forall m now, calc_safe (mcalc m) -> calc_safe (mcalc (snd (next_rto m now))).
+Proof. exact CodeAgreeRto.calc_safe_preserved. Qed.
+Theorem C06_code_new_is_model : forall rtt rm rc,
+  gen_RtoManager_new rtt rm rc = conv_mgr {| latest := None; last_rto := 0; mcalc := {| c_rtt := rtt; c_rm := 1; c_rc := rc; c_last := rm |} |}.
+Proof. exact CodeAgreeRto.gen_mgr_new_agrees. Qed.
+Print Assumptions C06_code_is_model.
+Print Assumptions C06_code_safe_preserved.
+Print Assumptions C06_code_new_is_model.
